@@ -41,7 +41,6 @@ func setPath(options Options, optionID OptionID, buf []byte, path string) (Optio
 	if len(path) == 0 {
 		return options, 0, nil
 	}
-	o := options.Remove(optionID)
 	if path[0] == '/' {
 		path = path[1:]
 	}
@@ -52,6 +51,9 @@ func setPath(options Options, optionID OptionID, buf []byte, path string) (Optio
 	if requiredSize > len(buf) {
 		return options, -1, ErrTooSmall
 	}
+	// remove the old path only after all checks have passed: Remove shifts the
+	// elements in place, so an early return would hand back a corrupted list
+	o := options.Remove(optionID)
 	encoded := 0
 	for start := 0; start < len(path); {
 		subPath := path[start:]
